@@ -15,7 +15,8 @@ import time
 VERIF = os.path.dirname(os.path.dirname(os.path.abspath(__file__)))
 REPO = os.environ.get("VERIF_REPO", "/repo")
 OUT = os.environ.get("VERIF_OUT", VERIF)  # where evidence/ and work/ are written (the self-test matrix uses a scratch dir)
-PROOF_KINDS = {"post", "raise", "noraise", "callee-pre", "frame", "inv-init", "inv-pres", "lemma"}
+PROOF_KINDS = {"post", "raise", "noraise", "callee-pre", "frame", "inv-init", "inv-pres", "loop-frame", "lemma"}
+AUX_KINDS = {"inv-init", "inv-pres", "loop-frame"}
 CLAUSE_KINDS = {"post", "raise", "noraise", "callee-pre", "frame", "lemma"}
 
 
@@ -36,6 +37,17 @@ def clause_status(fn_result):
         key = f"{ob['kind']}::{ob['clause']}"
         ok = ob["status"] == "proved"
         out[key] = out.get(key, True) and ok
+    return {k: ("proved" if v else "unproved") for k, v in out.items()}
+
+
+def aux_status(fn_result):
+    """auxiliary obligations (loop invariants: established / preserved, loop frames): clause text -> proved iff all its obligations are."""
+    out = {}
+    for ob in fn_result.get("obligations", []):
+        if ob["kind"] not in AUX_KINDS:
+            continue
+        key = f"{ob['kind']}::{ob['clause']}"
+        out[key] = out.get(key, True) and ob["status"] == "proved"
     return {k: ("proved" if v else "unproved") for k, v in out.items()}
 
 
@@ -111,15 +123,24 @@ def main(argv=None):
                      "was_proved": bst == "proved", "code_changed": base.get("ast_hash") not in (None, r.get("ast_hash")),
                      "counterexample_path": next((o.get("trace") for o in obs if o.get("trace")), None), "branch": obs[0].get("path") if obs else None}
             (suspicious if bst == "proved" else degraded).append(entry)
-        # auxiliary obligations (invariants) that fail only degrade
-        for o in r.get("obligations", []):
-            if o["kind"] in ("inv-init", "inv-pres") and o["status"] != "proved":
-                degraded.append({"function": key, "clause": f"{o['kind']}::{o['clause']}", "obligations": [o["name"]], "aux": True})
+        # auxiliary obligations (loop invariants / loop frames).  The postconditions are proved RELATIVE to them, so an
+        # auxiliary obligation that was discharged at baseline and fails now, in a function whose code changed, is the same
+        # event as a failed clause: the proof that stood no longer stands ("an obligation that passed on the unchanged tree
+        # and now fails").  One never discharged at baseline, or failing in an unchanged function, only degrades.
+        for akey, st in aux_status(r).items():
+            if st == "proved":
+                continue
+            obs = [o for o in r["obligations"] if f"{o['kind']}::{o['clause']}" == akey and o["status"] != "proved"]
+            was = base.get("aux", {}).get(akey) == "proved"
+            changed = base.get("ast_hash") not in (None, r.get("ast_hash"))
+            entry = {"function": key, "clause": akey, "obligations": [o["name"] for o in obs], "solver": [f"{o['status']}: {o['detail'][:200]}" for o in obs][:3], "aux": True,
+                     "was_proved": was, "code_changed": changed, "branch": obs[0].get("path") if obs else None}
+            (suspicious if was and changed else degraded).append(entry)
 
     if args.update_baseline:
         for r in results:
             if r["status"] == "ok":
-                baseline[r["key"]] = {"ast_hash": r.get("ast_hash"), "clauses": clause_status(r)}
+                baseline[r["key"]] = {"ast_hash": r.get("ast_hash"), "clauses": clause_status(r), "aux": aux_status(r)}
         with open(baseline_path, "w") as f:
             json.dump(baseline, f, indent=1, sort_keys=True)
         print(f"baseline updated for {len(results)} functions")
@@ -143,9 +164,11 @@ def main(argv=None):
         else:
             violations.append(("static", sfail))
     bounded_fns_failed = {f.get("function") for f in bounded.get("failures", [])}
+    confirmed_natively = []
     for s in suspicious:
         if s["function"] in bounded_fns_failed:
-            continue  # already reported with a failing input
+            confirmed_natively.append(s)  # the same function's contract already fired with a failing input: reported there
+            continue
         if s.get("code_changed"):
             violations.append(("obligation", s))
         else:
@@ -219,6 +242,8 @@ def main(argv=None):
             k = {"input": v.get("kind", "oracle") if isinstance(v, dict) else "oracle", "static": "static-frame", "obligation": "deductive-obligation"}.get(kind, kind)
             k = {"oracle": "bounded-oracle", "contract": "bounded-armed-monitor"}.get(k, k)
             mech[k] = mech.get(k, 0) + 1
+        if confirmed_natively:
+            mech["deductive-obligation(with native input)"] = len(confirmed_natively)
         print("MECHANISMS " + " ".join(f"{k}={n}" for k, n in sorted(mech.items())))
     print(f"{pid} tier={tier}: functions={len(keys)} obligations={n_obl} discharged={n_dis} static={static.get('passed', 0)}/{static.get('checks', 0)} degraded={len(degraded)} "
           f"bounded_evals={bounded.get('evaluations', 0)} level={level} wall={time.time() - t0:.1f}s")
